@@ -306,6 +306,13 @@ class Sym:
             return None
         if isinstance(st, (ast.FunctionDef, ast.AsyncFunctionDef)):
             info = getattr(st, '_info', None)
+            body = [b for b in st.body if not (isinstance(b, ast.Expr) and isinstance(b.value, ast.Constant) and isinstance(b.value.value, str))]
+            if info and not st.decorator_list and len(body) == 1 and isinstance(body[0], ast.Return) and body[0].value is not None and not st.args.args and not st.args.vararg \
+                    and not st.args.kwarg and not st.args.kwonlyargs and not st.args.posonlyargs:
+                # `def f(): return <expr>` is the lambda `lambda: <expr>`
+                sub = _Frame(Ctx(info, fr.ctx.recv), fr.self_term, fr.self_cls, fr.depth)
+                env.set(st.name, ('lam', (), self.ev(body[0].value, _Env(env), sub)))
+                return None
             env.set(st.name, ('closure', info.qualname, id(env)) if info else opaque(st.name))
             self._closures = getattr(self, '_closures', {})
             if info:
